@@ -38,6 +38,14 @@ def roundtrip(dbx, dec, enc, d, payload, nb, acc, label):
         acc.count("other_definition_or_none")
         return
     w = {"definition": d.id, "label": label, "payload_hex": payload.to_bytes(nb, "little").hex()}
+    if acc.evaluations % 3 == 1:
+        # what applications do with a decoded message before passing it on: look at it, print it, serialise it
+        try:
+            m.to_json()
+            repr(m)
+            acc.count("messages_serialised_before_reencoding")
+        except Exception:  # noqa: BLE001 - C15's business
+            pass
     try:
         text = enc.encode_actisense(m)
     except Exception as e:  # noqa: BLE001
